@@ -586,6 +586,17 @@ func (V *Verifier) encode(fn *ssa.Function) (enc *fnEnc, err error) {
 		}
 		e.params["$"+p.Name()] = t
 	}
+	if e.con == nil {
+		// no contract: the implicit one is "pointer parameters are not nil" -
+		// assumed here, and an obligation at every call site inside /repo that
+		// reaches an uncontracted function (calls.go)
+		for _, p := range fn.Params {
+			if _, isPtr := p.Type().Underlying().(*types.Pointer); isPtr {
+				e.assert(fmt.Sprintf("(not (= %s 0))", e.val[p][0].S))
+				e.note("implicit contract of an uncontracted function: pointer parameter " + p.Name() + " != nil (checked at its call sites in /repo)")
+			}
+		}
+	}
 	ctor := U.fnCtorOf(fn)
 	for i, fv := range fn.FreeVars {
 		if ctor.ByVal[i] {
